@@ -135,6 +135,7 @@ structure St where
   taskBefore : Option (List Data) := none   -- task cases: what the sink in front of the UDF recorded
   branches : List String := []
   nontrivial : Bool := false
+  structural : Option String := none   -- model ≠ implementation in a way the spec does not care about (reported last)
 
 def addBr (st : St) (b : String) : St := if st.branches.contains b then st else { st with branches := b :: st.branches }
 def addBrs (st : St) (bs : List String) : St := bs.foldl addBr st
@@ -168,10 +169,30 @@ def wireStringsValid (tok : String) : Bool :=
   let pieces := (tok.splitOn "|").flatMap (fun a => (a.splitOn ",").flatMap (fun b => b.splitOn "="))
   pieces.all (fun pc => match unescB pc with | some b => validUTF8 b | none => true)
 
+/-- `WriteMessage` used another number of `Write` calls than the model's two: what the property cares about is the
+byte stream - re-frame the bytes with the model's reader, go on judging (the read-back clauses decide whether the
+stream is still right) and report the difference in call structure as model ≠ implementation at the end. -/
+def judgeWriteOther (st : St) (tok w h : String) (valid : Bool) (l : String) : Except Verdict St :=
+    if !valid then .error (.mismatch "proto.Marshal accepted a message the model's validUTF8 rejects") else
+    match parseHex h with
+    | some bytes =>
+      match readUvarint [bytes] with
+      | .ok (size, rest) =>
+        let p := rest.flatten
+        let v := bytes.take (bytes.length - p.length)
+        if p.length != size then
+          .error (.specfail "framing-roundtrip" s!"WriteMessage wrote {bytes.length} bytes that are not one frame: length prefix {size}, {p.length} bytes follow")
+        else
+          .ok { st with written := st.written.push tok, frames := st.frames.push (v, p),
+                        structural := some s!"WriteMessage: model makes 2 Write calls (varint, payload), observed {w}" }
+      | .error _ => .error (.specfail "framing-roundtrip" s!"WriteMessage wrote bytes that do not start with a length prefix: {h}")
+    | none => .error (.badop l)
+
 def judgeWrite (st : St) (tok : String) (obs : List String) (l : String) : Except Verdict St :=
   let valid := wireStringsValid tok
   match obs with
   | [v, p] =>
+    if v.startsWith "writes:" then judgeWriteOther st tok v p valid l else
     if !valid then .error (.mismatch "proto.Marshal accepted a message the model's validUTF8 rejects") else
     match parseHex v, parseHex p with
     | some v, some p =>
@@ -460,7 +481,10 @@ def judgeLine (st : St) (l : String) : Except Verdict St := do
 
 def judge (_id : String) (lines : Array String) : Verdict :=
   match lines.toList.foldlM judgeLine {} with
-  | .ok st => .ok st.nontrivial st.branches.reverse
+  | .ok st =>
+    match st.structural with
+    | some d => .mismatch d
+    | none => .ok st.nontrivial st.branches.reverse
   | .error v => v
 
 end Kap.C19.Drv
